@@ -14,6 +14,11 @@ from machgen import ARN
 T = engine_props.T
 
 
+def cm_base(cid):
+    import crashmodel as cm
+    return cm.base_id(cid)
+
+
 def scenarios(thorough=False):
     S = explore.Scenario
     out = []
@@ -123,7 +128,7 @@ def visit_attempt(s, correlation_id):
             n = lambda x: x if isinstance(x, int) and not isinstance(x, bool) else 0
             st["att"][(fr.get("props") or {}).get("message_id")] = \
                 n(state.get("RetryCount")) + sum(n(f.get("RetryCount")) for f in (state.get("Branch") or []) if isinstance(f, dict))
-    return st["att"].get(correlation_id)
+    return st["att"].get(cm_base(correlation_id))
 
 
 def start(scn, share_stores):
@@ -191,7 +196,7 @@ def observe(s, ea):
     fv = explore.final_view(s, ea)
     reqs = {}
     for q in s.rpc_requests:
-        reqs[q["correlation_id"]] = reqs.get(q["correlation_id"], 0) + 1
+        reqs[cm_base(q["correlation_id"])] = reqs.get(cm_base(q["correlation_id"]), 0) + 1
     terms = [n["body"]["detail"]["status"] for n in s.notifications
              if n["body"] and n["body"].get("detail", {}).get("executionArn") == ea and n["body"]["detail"]["status"] != "RUNNING"]
     return fv, reqs, terms
@@ -239,7 +244,7 @@ def classify(f, case, impl, model):
 
 def stuck_detail(s, fv):
     v = s.snapshot_volatile() or {}
-    sent = {q["correlation_id"] for q in s.rpc_requests}
+    sent = {cm_base(q["correlation_id"]) for q in s.rpc_requests}
     # a request for a synchronous child is keyed by the child's execution ARN: it was "sent" when an execution with that ARN
     # was started, and its answer is "gone" once that execution has ended (the answer is a call inside the engine)
     started, over = set(), set()
@@ -248,7 +253,7 @@ def stuck_detail(s, fv):
         if d.get("executionArn"):
             (started if d.get("status") == "RUNNING" else over).add(d["executionArn"])
     is_arn = lambda p: str(p).startswith("arn:aws:states:")
-    unsent = [p for p in v.get("pending", []) if (p not in started if is_arn(p) else p not in sent)]
+    unsent = [p for p in v.get("pending", []) if (p not in started if is_arn(p) else cm_base(p) not in sent)]
     # replies already consumed (delivered and acknowledged) by an engine connection that has since died
     lost_at = [fr["n"] for fr in s.broker.log if fr["op"] == "connection_lost"]
     consumed = set()
@@ -256,8 +261,8 @@ def stuck_detail(s, fv):
         last = lost_at[-1]
         for fr in s.broker.log:
             if fr["n"] < last and fr["op"] == "ack" and str(fr.get("queue", "")).startswith("asl_workflow_reply_to"):
-                consumed.add(fr.get("correlation_id"))
-    reply_consumed = [p for p in v.get("pending", []) if (p in started and p in over if is_arn(p) else p in consumed)]
+                consumed.add(cm_base(fr.get("correlation_id")))
+    reply_consumed = [p for p in v.get("pending", []) if (p in started and p in over if is_arn(p) else cm_base(p) in consumed)]
     rekeyed = [p for p in unsent if is_arn(p) and any(e.rsplit(":", 1)[0] == str(p).rsplit(":", 1)[0] for e in started)]
     # branch events of a *nested* fan-out (Branch stack of depth >= 2) that the engine acknowledged before a crash: the
     # nested join had completed, its result living only in the enclosing join's volatile slots (C04-F4)
@@ -626,6 +631,8 @@ def run(chk):
                                    "the terminal status is that of the crash-free run (duplicates of non-terminal effects are allowed)")
                     if not s.errors:
                         sched = lab.schedule(ea) if skel is not None else None
+                        if skel is not None and sched is None:
+                            chk.dist("model.no_schedule.because.%s" % ",".join(getattr(lab, "why", ["?"])))
                         side.add(case, False, skel, sched,
                                  cm.engine_observation(s, ea, fv, terms, reqs, detail), problem)
                     s.close()
